@@ -973,7 +973,8 @@ class IssuerFingerprint(Signature):
         elif self.version == 5:  # pragma: no cover
             fpr_len = 32
         else:  # pragma: no cover
-            fpr_len = self.header.length - 1
+            # the subpacket length counts the type octet and the version octet besides the fingerprint
+            fpr_len = self.header.length - 2
 
         self.issuer_fingerprint = packet[:fpr_len]
         del packet[:fpr_len]
@@ -1045,7 +1046,8 @@ class IntendedRecipient(Signature):
         elif self.version == 5:  # pragma: no cover
             fpr_len = 32
         else:  # pragma: no cover
-            fpr_len = self.header.length - 1
+            # the subpacket length counts the type octet and the version octet besides the fingerprint
+            fpr_len = self.header.length - 2
 
         self.intended_recipient = packet[:fpr_len]
         del packet[:fpr_len]
